@@ -14,7 +14,7 @@ def run(chk):
         calls += sum(len(x) for x in r["calls"])
         for msg in recon.oracle_c09(c, r):
             chk.failures.append(core.Failure(msg, "recon", "matrix", l, raw, key="c09"))
-        if len(chk.failures) > 10: break
+        if chk.too_many(): break
     return chk.finish(level="proof", extra={"storage_calls_monitored": calls},
         rule="recon stream (same space as C02/C03); the monitor runs over every storage call of every case; non-trivial = reaches Done, contains a refusal, stores a pivot or eliminates; distinct by case text",
         trusted=core.TRUSTED_COMMON + ["C09: buffer lengths are by construction in the model (blocks are numbers); on the implementation they are recorded by the instrumented storages (BADLEN flag)"])
